@@ -76,7 +76,7 @@ Init ==
            <<Root, <<"rect", "r", 0, FALSE, RectGeo,
                      <<Pairs("attr" \in S, p, "attr") \o (IF p = "stroke-width" THEN <<<<"stroke", "red">>>> ELSE <<>>), <<"k">>, Pairs("inline" \in S, p, "inline")>>>>, E0>>,
            SheetFor(S, p, order), "black")
-  \/ \E f1 \in Choices, f2 \in Choices, f3 \in Choices, w1 \in BOOLEAN, w2 \in BOOLEAN, w3 \in BOOLEAN, tf \in {0, 2, 5, 6, 7} :
+  \/ \E f1 \in Choices, f2 \in Choices, f3 \in Choices, w1 \in BOOLEAN, w2 \in BOOLEAN, w3 \in BOOLEAN, tf \in {0, 2, 4, 5, 6, 7} :
         Mk("chain",
            <<Root, <<"g", "", tf, FALSE, <<>>, LevelPaint(1, f1, w1)>>, <<"g", "", 0, FALSE, <<>>, LevelPaint(2, f2, w2)>>,
              <<"rect", "", 0, FALSE, RectGeo, LevelPaint(3, f3, w3)>>, E0, E0, E0>>,
